@@ -1,5 +1,6 @@
 import Pxv.Driver.Util
 import Pxv.Model.Ty
+import Pxv.Model.TyParse
 open Lean Pxv.Driver
 
 /-! JSON-lines driver for the type algebra (C17). Types use the serde representation of
@@ -183,15 +184,15 @@ def cratesOf (j : Json) : Option (List (String × String)) :=
 def handle (j : Json) : Json :=
   match (getVal? j "a").bind tyOfJson, (getVal? j "b").bind tyOfJson, (getVal? j "c").bind tyOfJson, cratesOf j with
   | some a, some b, some c, some lk =>
-    let wf := (getBool? j "wf").getD false
+    let wfReq := (getBool? j "wf").getD false
     let tmpl : Json := match isTemplateFor a b with
       | none => .null
       | some bs => Json.mkObj [("b", sortedPairs bs tyToJson), ("bound", tyToJson (bind bs a))]
     let ca := canonicalize a
     let cb := canonicalize b
-    Json.mkObj ([
+    let base : List (String × Json) := [
       ("r", "ok"),
-      ("wf", wf),
+      ("wf", wf a),
       ("same_ab", decide (a = b)),
       ("tmpl_ab", tmpl),
       ("is_template", Json.arr #[isTemplate a, isTemplate b, isTemplate c]),
@@ -209,7 +210,10 @@ def handle (j : Json) : Json :=
         ("err", displayForError a),
         ("type", optStringJson (renderType lk a)),
         ("inferred", optStringJson (renderWithInferredLifetimes lk a))])
-    ])
+    ]
+    let extra : List (String × Json) :=
+      if wfReq then [("reparse_a", match parse (renderD false a) with | some t => tyToJson t | none => Json.null)] else []
+    Json.mkObj (base ++ extra)
   | _, _, _, _ => Json.mkObj [("r", "bad-op")]
 
 end Pxv.Ty
